@@ -57,7 +57,7 @@ func floatSpellings(y float64, bits int) []string {
 	}
 	out := []string{`"` + strconv.FormatFloat(y, 'g', -1, bits) + `"`, `"` + strconv.FormatFloat(y, 'e', -1, bits) + `"`, `"` + strconv.FormatFloat(y, 'x', -1, bits) + `"`}
 	f := strconv.FormatFloat(y, 'f', -1, bits)
-	if len(f) < 40 {
+	if len(f) < 400 { // positional spellings of very small and very large values are hundreds of digits long
 		out = append(out, `"`+f+`"`)
 		if numLit.MatchString(f) && !(y == 0 && math.Signbit(y)) {
 			out = append(out, f)
@@ -970,7 +970,8 @@ func runC07(r *Run) {
 			keys := []string{"a", "b c", "x/y", "t~u", "0", "12", "K", "k", " k", "é", "a.b", "-", "_u", "a~1b", "a~0b", "~", "~1", "~0~1", "a~01", "/", "a/~b",
 				"liquid", "costarring", "declinate", "macallums", "altarage", "zinke", "plumless", "buckeroo", "Aa", "BB", "007", "010", "m²", "Ⅷ", "CO₂", "½", "二〇二四", "K", "İ", "struct field", "not found", "key",
 				"OR", "or", "IN", "in", "AS", "as", "ALL", "all", "ANY", "any", "NOT", "not", "IS", "is", "EMPTY", "empty", "AND", "and", "MATCHES", "matches", "CONTAINS", "contains", "Or", "nOt",
-				"18446744073709551557", "9223372036854775808", "99999999999999999999999", "4294967296", "00000000000000000000001"}
+				"18446744073709551557", "9223372036854775808", "99999999999999999999999", "4294967296", "00000000000000000000001",
+				"unit\u00a0price", "a\u2003b", "x\u200by", "\ufeffk", "a\u3000b", "l\u2028s", "n\u0085l"}
 			leaf := pick(rng, []interface{}{1, "a", []interface{}{1, "a"}, map[string]interface{}{"z": 1}, nil, ""})
 			k1, k2, k3 := pick(rng, keys), pick(rng, keys), pick(rng, keys)
 			// the first part is an identifier that begins like a keyword about one time in two
@@ -1139,6 +1140,7 @@ func genS5(hiddenSeed int) S5 {
 }
 
 func runC08(r *Run) {
+	c08OddTagNames(r)
 	r.Rule = "pairs of data equal on visible fields and different in the contents of `-`-tagged and unexported fields (strings, slices, maps, nested structs; nested in structs, pointers, slices and maps), generated from one visible seed and two hidden seeds; expressions from the generic generator against the first datum plus a family naming hidden fields by Go name, tag name, through containers and quantifiers, under the default and the alternate tag name; predicate on the implementation: identical Evaluate outcomes and identical Filter selections for the pair; a selector naming a hidden field never resolves to its content; a renamed field is reachable only under its tag name; both evaluations also compared with the model; distinct = (expression shape, tag, outcome)"
 	n := 1200
 	if r.Tier == "thorough" {
@@ -1399,6 +1401,7 @@ func runC14(r *Run) {
 		reps, n = 512, 6000
 	}
 	c14OddMaps(r, reps)
+	c14ReplacedInPlace(r)
 	sameTypeDifferentShape(r, "order-dependent-evaluate")
 	c14RepeatedCreation(r, reps)
 	bodies := []string{"any m as _, v { v.x == 1 }", "all m as _, v { v.x == 1 }", "any m as k, v { v.x == 1 and k != zz }", "all m as k, v { v.x != 1 or k == a }", "any m as k { k == b }",
